@@ -49,6 +49,10 @@ var classNodeQueue []core_domain.CodeDataStruct
 var currentNode *core_domain.CodeDataStruct
 var classNodes []core_domain.CodeDataStruct
 var currentCreatorNode core_domain.CodeDataStruct
+
+// creatorDepth counts the anonymous class bodies (`new T() { ... }`) being walked: the outermost one
+// opens the creator scope and only its end closes it
+var creatorDepth = 0
 var fileName = ""
 var hasEnterClass = false
 
@@ -66,6 +70,7 @@ func NewJavaFullListener(nodes map[string]core_domain.CodeDataStruct, file strin
 	staticOnDemandImports = make(map[int]bool)
 	currentType = ""
 	currentCreatorNode = *core_domain.NewDataStruct()
+	creatorDepth = 0
 	hasEnterClass = false
 	fileName = file
 	currentPkg = ""
@@ -561,15 +566,18 @@ func (s *JavaFullListener) EnterCreator(ctx *parser.CreatorContext) {
 
 		buildCreatorCall(createdName, ctx)
 
-		if currentMethod.Name == "" {
-			return
-		}
-
 		if ctx.ClassCreatorRest() == nil {
 			return
 		}
 
 		if ctx.ClassCreatorRest().(*parser.ClassCreatorRestContext).ClassBody() == nil {
+			return
+		}
+
+		// an anonymous class, in a method body or in a field initialiser: its body must not end the
+		// class being listed; one nested in another leaves the outer one's scope as it is
+		creatorDepth++
+		if creatorDepth > 1 {
 			return
 		}
 
@@ -596,6 +604,13 @@ func (s *JavaFullListener) ExitCreator(ctx *parser.CreatorContext) {
 	// only an anonymous class opens a creator scope: a plain `new Foo()` written inside the
 	// methods of an anonymous class must not close the scope of that class
 	if rest, ok := ctx.ClassCreatorRest().(*parser.ClassCreatorRestContext); !ok || rest.ClassBody() == nil {
+		return
+	}
+
+	if creatorDepth > 0 {
+		creatorDepth--
+	}
+	if creatorDepth > 0 {
 		return
 	}
 
